@@ -227,12 +227,12 @@ type gOp struct {
 	Slot  int      `json:"m"`               // acting member slot
 	Sub   []string `json:"sub,omitempty"`   // join: subscription to send (nil = keep previous)
 	Fresh bool     `json:"fresh,omitempty"` // join: send an empty member id although one is known
-	Ident string   `json:"id,omitempty"`    // hb/sync/commit: "" own | stale | other | unknown | future | past | noid
+	Ident string   `json:"id,omitempty"`    // hb/sync/commit: "" own | stale | other | unknown | future | past | noid | foreign
 	Pick  int      `json:"pick,omitempty"`  // selector for stale/other
 	DtMs  int64    `json:"dt,omitempty"`    // advance
 	Topic string   `json:"t,omitempty"`     // commit/fetch
 	Part  int32    `json:"p,omitempty"`
-	G     int      `json:"g,omitempty"`     // which group of a pair sharing one coordinator (gRunPair)
+	G     int      `json:"g,omitempty"` // which group of a pair sharing one coordinator (gRunPair)
 }
 
 type gIdent struct {
@@ -344,6 +344,7 @@ type gWorld struct {
 	prev    gTruth
 	blocked bool
 	name    string
+	peer    *gWorld // the other group on the same coordinator (pair mode)
 }
 
 var gBroker = protocol.MetadataBroker{NodeID: 1, Host: "127.0.0.1", Port: 9092}
@@ -545,6 +546,13 @@ func (w *gWorld) identity(op gOp) (string, int32) {
 		if o.ID != "" {
 			return o.ID, s.Gen
 		}
+	case "foreign": // a member id that is valid, but in the OTHER group served by this coordinator
+		if w.peer != nil {
+			if o := w.peer.slots[op.Pick%len(w.peer.slots)]; o.ID != "" {
+				return o.ID, s.Gen
+			}
+		}
+		return fmt.Sprintf("%s-nobody-%d", w.cfg.Group, op.Pick), s.Gen
 	case "unknown":
 		return fmt.Sprintf("%s-nobody-%d", w.cfg.Group, op.Pick), s.Gen
 	case "future":
@@ -595,7 +603,28 @@ func (w *gWorld) step(op gOp) {
 		w.settle()
 	case "failover":
 		w.failover()
+	case "grow":
+		w.grow(op.Topic, int(op.Part))
 	}
+}
+
+// grow adds partitions to a topic in the store (an administrator's action, not
+// a coordinator request). The config's topic map is replaced, not mutated.
+func (w *gWorld) grow(topic string, by int) {
+	cur, ok := w.cfg.Topics[topic]
+	if !ok || by <= 0 {
+		return
+	}
+	if err := w.rec.inner().CreatePartitions(context.Background(), topic, int32(cur+by)); err != nil {
+		return
+	}
+	nt := map[string]int{}
+	for k, v := range w.cfg.Topics {
+		nt[k] = v
+	}
+	nt[topic] = cur + by
+	w.cfg.Topics = nt
+	w.emit(&gEvent{K: "grow", Slot: -1, Topic: topic, Part: int32(cur + by)})
 }
 
 func (w *gWorld) doJoin(op gOp) *gEvent {
@@ -826,7 +855,7 @@ func (w *gWorld) alignToTick() {
 	interval := time.Duration(w.cfg.CleanupMs) * time.Millisecond
 	now := time.Now()
 	k := now.Sub(w.tick0) / interval
-	if w.tick0.Add(k*interval).Equal(now) {
+	if w.tick0.Add(k * interval).Equal(now) {
 		return
 	}
 	w.advance(w.tick0.Add((k + 1) * interval).Sub(now))
@@ -898,18 +927,18 @@ func (w *gWorld) settle() {
 // generation of scenarios
 
 type gProfile struct {
-	WJoin, WSync, WHB, WLeave, WCommit, WFetch, WAdvance, WSettle, WFailover, WHBR int
-	PStale   float64 // probability that an hb/sync/commit uses a foreign/stale identity
-	PResub   float64 // probability that a re-join changes the subscription
-	PFresh   float64 // probability that a member holding an id joins with an empty one
-	PBigJump float64 // probability that an advance is long enough to expire somebody
-	Sessions []int64
-	Rebals   []int64
-	Cleanups []int64
-	MixRebal bool // members may use different rebalance timeouts
-	Ghost    float64
-	MinOps   int
-	MaxOps   int
+	WJoin, WSync, WHB, WLeave, WCommit, WFetch, WAdvance, WSettle, WFailover, WHBR, WGrow int
+	PStale                                                                                float64 // probability that an hb/sync/commit uses a foreign/stale identity
+	PResub                                                                                float64 // probability that a re-join changes the subscription
+	PFresh                                                                                float64 // probability that a member holding an id joins with an empty one
+	PBigJump                                                                              float64 // probability that an advance is long enough to expire somebody
+	Sessions                                                                              []int64
+	Rebals                                                                                []int64
+	Cleanups                                                                              []int64
+	MixRebal                                                                              bool // members may use different rebalance timeouts
+	Ghost                                                                                 float64
+	MinOps                                                                                int
+	MaxOps                                                                                int
 }
 
 var gDefaultProfile = gProfile{
@@ -965,12 +994,12 @@ func gRandSub(rng *rand.Rand, universe []string) []string {
 	return sub
 }
 
-var gIdentModes = []string{"stale", "stale", "stale", "other", "unknown", "future", "past", "noid"}
+var gIdentModes = []string{"stale", "stale", "stale", "other", "unknown", "future", "past", "noid", "foreign"}
 
 // gGenOps draws the abstract op list of one case.
 func gGenOps(rng *rand.Rand, p gProfile, cfg gConfig) []gOp {
 	n := p.MinOps + rng.Intn(p.MaxOps-p.MinOps+1)
-	total := p.WJoin + p.WSync + p.WHB + p.WLeave + p.WCommit + p.WFetch + p.WAdvance + p.WSettle + p.WFailover + p.WHBR
+	total := p.WJoin + p.WSync + p.WHB + p.WLeave + p.WCommit + p.WFetch + p.WAdvance + p.WSettle + p.WFailover + p.WHBR + p.WGrow
 	hasSub := make([]bool, cfg.M)
 	maxS := int64(0)
 	for _, s := range cfg.SessionMs {
@@ -1024,8 +1053,12 @@ func gGenOps(rng *rand.Rand, p gProfile, cfg gConfig) []gOp {
 			op.K = "settle"
 		case x < p.WJoin+p.WSync+p.WHB+p.WLeave+p.WCommit+p.WFetch+p.WAdvance+p.WSettle+p.WFailover:
 			op.K = "failover"
-		default:
+		case x < p.WJoin+p.WSync+p.WHB+p.WLeave+p.WCommit+p.WFetch+p.WAdvance+p.WSettle+p.WFailover+p.WHBR:
 			op.K = "hbr"
+		default:
+			op.K = "grow"
+			op.Topic = cfg.Universe[rng.Intn(len(cfg.Universe))]
+			op.Part = int32(1 + rng.Intn(2))
 		}
 		ops = append(ops, op)
 	}
@@ -1061,6 +1094,7 @@ func gRunPair(t *testing.T, cfgs [2]gConfig, ops []gOp, offBase int64, setup fun
 		store := metadata.NewInMemoryStore(cfgs[0].metadata())
 		ws[0] = newGWorld(t, cfgs[0], store, true, offBase)
 		ws[1] = ws[0].sibling(cfgs[1])
+		ws[0].peer, ws[1].peer = ws[1], ws[0]
 		for i := range ws {
 			if setup != nil {
 				setup(i, ws[i])
@@ -1071,6 +1105,9 @@ func gRunPair(t *testing.T, cfgs [2]gConfig, ops []gOp, offBase int64, setup fun
 			case "advance":
 				gAdvance(time.Duration(op.DtMs)*time.Millisecond, ws[0], ws[1])
 			case "failover":
+			case "grow":
+				ws[op.G].step(op)
+				ws[1-op.G].cfg.Topics = ws[op.G].cfg.Topics // one store, one topic list
 			default:
 				ws[op.G].step(op)
 			}
